@@ -4,13 +4,15 @@
 #   the existing tests of the touched packages pass with it.  Writes /verif/seeded/<id>-<v>/.
 set -u
 export GOFLAGS=-mod=mod GOPROXY=off GOSUMDB=off
-ID=$1; V=$2; SRC=/tmp/mut/$ID/$V; WT=/tmp/wt-verify-$ID-$V; OUT=/verif/seeded/$ID-$V
+ID=$1; V=$2; SRC=${VERIF_MUT_SRC:-/tmp/mut}/$ID/$V; WT=/tmp/wt-verify-$ID-$V; OUT=/verif/seeded/$ID-$V
 [ -f $SRC/patch.diff ] || { echo "no patch for $ID/$V"; exit 1; }
 rm -rf $WT; git -C /repo worktree add -q --detach $WT HEAD || exit 1
 cd $WT
 DEMOS=$(ls $SRC/*_test.go 2>/dev/null)
 if [ -n "${3:-}" ]; then DEMOS=$SRC/demo_test.go; fi
 DEST=$(grep -ohE '(tests|internal/[a-z_/0-9]+|store|imap|imap/command|rfcparser|rfc822|async)/[A-Za-z0-9_]+_test\.go' $SRC/README.md | head -1)
+D2=$(head -3 $SRC/demo_test.go 2>/dev/null | grep -ohE '(tests|internal/[a-z_/0-9]+|store|imap|imap/command|rfcparser|rfc822|async)/[A-Za-z0-9_]+_test\.go' | head -1)
+[ -n "$D2" ] && DEST=$D2
 [ -z "$DEST" ] && DEST=tests/seeded_${ID}${V}_test.go
 [ -n "${3:-}" ] && DEST=$3/x_test.go
 PKG=./$(dirname $DEST)/
